@@ -20,9 +20,8 @@ sync_sim() {
   rsync -a --delete --exclude target /verif/sim/ "$L/verif/sim/"
   cp /verif/check "$L/verif/check"
   sed -i "s#\"/repo/#\"$L/repo/#g" "$L/verif/sim/Cargo.toml"
-  sed -i "s#/verif/target#$L/target#" "$L/verif/sim/.cargo/config.toml"
-  # the driver finds sim/ next to itself; its target/evidence/replays dirs are redirected
-  sed -i "s#\$HERE/target#$L/target#g" "$L/verif/check"
+  # the driver builds into target/ next to itself (CARGO_TARGET_DIR); keep the lane's build output in $L/target
+  ln -sfn "$L/target" "$L/verif/target"
 }
 case "$cmd" in
   create)
